@@ -104,22 +104,31 @@ def qualifyVerdict (c : Site) (managed : Bool) : String :=
 
 /-! ## reading an address text (spec level) -/
 
+/-- `scheme://rest` → (scheme, rest); no "://" → ("", whole) -/
+def splitScheme (a : Bytes) : Bytes × Bytes :=
+  match indexSub a b!"://" 0 with
+  | some i => (a.take i, a.drop (i + 3))
+  | none => ([], a)
+
+/-- `host:port`, `[v6]:port` → (host, port); otherwise the whole thing (brackets removed) and no port -/
+def splitPort (hostport : Bytes) : Bytes × Bytes :=
+  match splitHostPort hostport with
+  | some (h, p) => (h, p)
+  | none => (trimCutset hostport b!"[]", [])
+
+/-- the service names http / https written as a port -/
+def servicePort (p : Bytes) : Bytes := if p == b!"http" then b!"80" else if p == b!"https" then b!"443" else p
+
 /-- scheme, host and port as written in a site address `[scheme://]host[:port][/path]`; IPv6 hosts in brackets
-(or bare, when there is no port).  Lower-cased; the service names http/https count as 80/443. -/
+(or bare, when there is no port).  Lower-cased; the service names http/https count as 80/443; a missing port follows
+from the scheme, a missing scheme from the port. -/
 def readAddr (a : Bytes) : Bytes × Bytes × Bytes :=
-  let a := toLower a
-  let (scheme, rest) := match indexSub a b!"://" 0 with
-    | some i => (a.take i, a.drop (i + 3))
-    | none => ([], a)
-  let hostport := (cutByte rest 47).1
-  let (host, port) :=
-    match splitHostPort hostport with
-    | some (h, p) => (h, p)
-    | none => (trimCutset hostport b!"[]", [])
-  let port := if port == b!"http" then b!"80" else if port == b!"https" then b!"443" else port
-  let port := if !port.isEmpty then port else if scheme == b!"http" then b!"80" else if scheme == b!"https" then b!"443" else port
-  let scheme := if !scheme.isEmpty then scheme else if port == b!"80" then b!"http" else if port == b!"443" then b!"https" else scheme
-  (scheme, host, port)
+  let sr := splitScheme (toLower a)
+  let hp := splitPort (cutByte sr.2 47).1
+  let port := servicePort hp.2
+  let port := if !port.isEmpty then port else if sr.1 == b!"http" then b!"80" else if sr.1 == b!"https" then b!"443" else port
+  let scheme := if !sr.1.isEmpty then sr.1 else if port == b!"80" then b!"http" else if port == b!"443" then b!"https" else sr.1
+  (scheme, hp.1, port)
 
 /-! ## the site-set property -/
 
